@@ -132,6 +132,70 @@ class ModuleState(Case):
         return [("reads_no_mutable_module_state", [], bool(goal))]
 
 
+MUTATORS = ("append", "extend", "insert", "pop", "remove", "clear", "sort", "reverse", "update", "setdefault", "add", "discard", "popitem", "__setitem__", "__delitem__")
+
+
+class SelfStores(Case):
+    """static: the methods of a parameter class that a test reaches (transitively through self.<m>(...)
+    calls, properties included) never store through `self` - no assignment to an attribute or item of
+    self.<...>, no mutating container method on self.<...>, no setattr(self, ...).  "The call leaves the
+    parameter objects unmodified" (C01) for the part of a parameter object that is plain Python state."""
+
+    is_lemma = True
+    default_props = {}
+
+    def __init__(self, module, cls, entry, **kw):
+        Case.__init__(self)
+        self.module, self.cls, self.entry = module, cls, entry
+        self.function = "%s.%s" % (cls, entry)
+        self.props = {"lemma.stores_nothing_through_self": ("C01",)}
+
+    @property
+    def name(self):
+        return "%s.%s.%s[self-frame]" % (self.module.split(".")[-1], self.cls, self.entry)
+
+    @staticmethod
+    def _rooted_at_self(node):
+        while isinstance(node, (ast.Attribute, ast.Subscript)):
+            node = node.value
+        return isinstance(node, ast.Name) and node.id == "self"
+
+    def lemmas(self):
+        tree = ast.parse(open(front.repo_path(self.module)).read())
+        cls = next(n for n in ast.walk(tree) if isinstance(n, ast.ClassDef) and n.name == self.cls)
+        methods = {}
+        for n in cls.body:
+            if isinstance(n, ast.FunctionDef):
+                methods.setdefault(n.name, []).append(n)
+        todo, seen, bad = [self.entry], set(), []
+        while todo:
+            m = todo.pop()
+            if m in seen or m not in methods:
+                continue
+            seen.add(m)
+            for fn in methods[m]:
+                for node in ast.walk(fn):
+                    if isinstance(node, ast.Attribute) and isinstance(node.value, ast.Name) and node.value.id == "self" and node.attr in methods:
+                        todo.append(node.attr)  # self.m(...) or a property read
+                    tg = []
+                    if isinstance(node, (ast.Assign, ast.Delete)):
+                        tg = node.targets
+                    elif isinstance(node, (ast.AugAssign, ast.AnnAssign)):
+                        tg = [node.target]
+                    for t in tg:
+                        for el in ast.walk(t):
+                            if isinstance(el, (ast.Attribute, ast.Subscript)) and isinstance(el.ctx, (ast.Store, ast.Del)) and self._rooted_at_self(el):
+                                bad.append("%s:%d store through self" % (m, node.lineno))
+                    if isinstance(node, ast.Call):
+                        f = node.func
+                        if isinstance(f, ast.Attribute) and f.attr in MUTATORS and self._rooted_at_self(f.value) and not (isinstance(f.value, ast.Name)):
+                            bad.append("%s:%d self...%s()" % (m, node.lineno, f.attr))
+                        if isinstance(f, ast.Name) and f.id in ("setattr", "delattr") and node.args and isinstance(node.args[0], ast.Name) and node.args[0].id == "self":
+                            bad.append("%s:%d %s(self, ...)" % (m, node.lineno, f.id))
+        self.detail = "; ".join(sorted(set(bad))) + " [methods reached: %s]" % ", ".join(sorted(seen))
+        return [("stores_nothing_through_self", [], not bad)]
+
+
 def cases():
     bases = []
     bases += [qartod_range.GrossRange(suspect=True, seq="tuple"), qartod_range.ValidRange(kind="float", lo=True, hi=True, si=True, ei=False)]
@@ -145,4 +209,5 @@ def cases():
     for modname, fns in (("ioos_qc.qartod", ["gross_range_test", "location_test", "climatology_test", "ClimatologyConfig.check", "spike_test", "rate_of_change_test", "flat_line_test", "attenuated_signal_test", "density_inversion_test", "qartod_compare"]), ("ioos_qc.argo", ["pressure_increasing_test", "speed_test"]), ("ioos_qc.axds", ["valid_range_test"]), ("ioos_qc.utils", ["mapdates", "great_circle_distance", "isfixedlength", "isnan"])):
         for f in fns:
             cs.append(ModuleState(modname, f))
+    cs.append(SelfStores("ioos_qc.qartod", "ClimatologyConfig", "check"))
     return cs
